@@ -1,6 +1,7 @@
 """C02 - Parsing always terminates with a verdict: no exception, no hang."""
 
 import base64
+import gc
 import json
 import os
 import re
@@ -20,7 +21,7 @@ RULE = ("C01's exhaustive token spaces and generated scripts/mutants, plus Hypot
         "generated scripts (bit flips, inserts of NUL/invalid UTF-8/multi-byte/quote/backslash/CR/LF, deletes, splices, "
         "truncations), identifiers colliding with every name in dir(sievelib.commands), str and bytes inputs, fresh and long-lived Parser objects, "
         "parse_file on files with byte order marks / other encodings / cut code units / padding, "
-        "and size families for work scaling; oracle: no exception, lexer steps <= 2*len+16, result is True/False, "
+        "and size families for work scaling (Python line events at 3 sizes; CPU time at 0.1 MB vs 0.8 MB); oracle: no exception, lexer steps <= 2*len+16, result is True/False, "
         "error/error_pos/result shape. Non-trivial = input is not an accepted script (mutated, rejected or crashing); "
         "distinct by bytes.")
 
@@ -393,6 +394,55 @@ def scaling_worker(arg):
     return col
 
 
+CPU_FAMILIES = ["valid-commands", "long-list", "hash-comments", "many-tests", "error-at-end", "unterminated-string", "multibyte-then-error"]
+
+
+def cpu_scaling_worker(arg):
+    """Work done inside C code (slicing, counting, regex) is invisible to the line-event
+    count: for inputs of 0.1 ... 1 MB the CPU time of one parse is compared between a
+    size and eight times that size.  Linear work gives a factor of about 8; a factor
+    above 20 (plus half a second of slack), measured twice, is reported."""
+    name, n = arg
+    col = core.Collector()
+    fam = FAMILIES[name]
+
+    def cpu(data):
+        best = None
+        for _ in range(2):
+            p = impl.Parser()
+            core.guard_enter(data[:200])
+            gc_was = gc.isenabled()
+            gc.disable()
+            t = time.process_time()
+            try:
+                with impl.cpu_guard(60.0):
+                    p.parse(data)
+            except Exception:  # noqa: BLE001 -- the verdict is judged elsewhere
+                pass
+            finally:
+                dt = time.process_time() - t
+                if gc_was:
+                    gc.enable()
+                core.guard_exit()
+            best = dt if best is None else min(best, dt)
+        return best
+
+    small, big = fam(n), fam(8 * n)
+    t1, t8 = cpu(small), cpu(big)
+    slow = t8 > 20 * t1 + 0.5
+    if slow:
+        t1b, t8b = cpu(small), cpu(big)
+        slow = t8b > 20 * t1b + 0.5
+        t1, t8 = min(t1, t1b), min(t8, t8b)
+    col.case(key=b"cpu-" + name.encode(), nontrivial=True, classes=("src:cpu-scaling",),
+             sample={"family": name, "bytes": [len(small), len(big)], "cpu_s": [round(t1, 3), round(t8, 3)]})
+    col.notes["cpu-scaling:%s bytes=%s cpu=%s" % (name, [len(small), len(big)], [round(t1, 2), round(t8, 2)])] += 1
+    if slow:
+        col.fail("scaling|super-linear-cpu-time|" + name, {"family": name, "n": n, "cpu": True},
+                 {"bytes": [len(small), len(big)], "cpu_seconds": [round(t1, 3), round(t8, 3)], "factor": round(t8 / max(t1, 1e-6), 1)})
+    return col
+
+
 def atheris_campaign(seed, runs, seeded):
     """Run one libFuzzer campaign in a subprocess. -> Collector"""
     import shutil
@@ -460,6 +510,8 @@ def extra_worker(arg):
         return file_worker(payload)
     if kind == "scaling":
         return scaling_worker(payload)
+    if kind == "cpu-scaling":
+        return cpu_scaling_worker(payload)
     if kind == "badcomment":
         return badcomment_worker(payload)
     if kind == "atheris":
@@ -468,6 +520,9 @@ def extra_worker(arg):
 
 
 def replay(case):
+    if "family" in case and case.get("cpu"):
+        col = cpu_scaling_worker((case["family"], case["n"]))
+        return [(b, f["detail"]) for b, f in col.fails.items()]
     if "family" in case:
         col = scaling_worker((case["family"], case["n"]))
         return [(b, f["detail"]) for b, f in col.fails.items()]
@@ -574,11 +629,12 @@ def main(tier, seed, t0):
     extra += [("file", (seed * 1000 + 200 + k, 60 if quick else 600)) for k in range(2)]
     n0 = 400 if quick else 3000
     extra += [("scaling", (name, n0)) for name in sorted(FAMILIES)]
+    extra += [("cpu-scaling", (name, 15000)) for name in CPU_FAMILIES]
     runs = 20000 if quick else 1500000
     extra += [("atheris", (seed, runs, True)), ("atheris", (seed, runs, False))]
     col.merge(core.run_shards(extra_worker, extra, on_killed=on_killed))
     need = ["src:blind", "src:guided", "src:gen", "src:mutant", "src:bytes", "src:collision", "src:parse_file",
-            "src:scaling", "src:badcomment", "input:str", "verdict:False", "verdict:True", "parser:reused"]
+            "src:scaling", "src:cpu-scaling", "src:badcomment", "input:str", "verdict:False", "verdict:True", "parser:reused"]
     missing = [c for c in need if not col.classes.get(c)]
     if missing:
         raise core.HarnessError("generator classes empty: %s" % missing)
